@@ -369,3 +369,163 @@ Proof.
   rewrite Hf. cbn [bind fst]. rewrite Ht. cbn [app].
   rewrite (canon_single _ _ _ (proj1 Hb) Hd Hc). reflexivity.
 Qed.
+
+(* ------------------------------------------------------------------ *)
+(* the printer with a significant-figure limit: digits beyond the limit are
+   shown as zeros; flagged exact iff that changes nothing *)
+
+Definition mask_ds (sf : N) (ds : list N) : list N :=
+  firstn (N.to_nat sf) ds ++ repeat 0 (length ds - N.to_nat sf).
+
+Lemma dchar_0 : dchar 0 = 48.
+Proof. reflexivity. Qed.
+
+Lemma sf_mask_all_zero : forall ds i sf, sf <= i ->
+  sf_mask i sf (map dchar ds) = map dchar (repeat 0 (length ds)).
+Proof.
+  induction ds as [|x ds IH]; intros i sf Hi; [reflexivity|].
+  cbn [map sf_mask length repeat]. replace (sf <=? i) with true by lia. rewrite dchar_0. f_equal.
+  apply IH. lia.
+Qed.
+
+Lemma skipn_In' : forall (A : Type) n (l : list A) x, In x (skipn n l) -> In x l.
+Proof.
+  intros A n. induction n as [|n IH]; intros l x H; [assumption|].
+  destruct l as [|a l]; [assumption|]. right. apply IH. assumption.
+Qed.
+
+Lemma firstn_In' : forall (A : Type) n (l : list A) x, In x (firstn n l) -> In x l.
+Proof.
+  intros A n. induction n as [|n IH]; intros l x H; [destruct H|].
+  destruct l as [|a l]; [destruct H|]. cbn [firstn] in H. destruct H as [->|H]; [left; reflexivity|right; apply IH; assumption].
+Qed.
+
+Lemma sf_mask_spec : forall ds i sf, i <= sf ->
+  sf_mask i sf (map dchar ds) = map dchar (mask_ds (sf - i) ds).
+Proof.
+  induction ds as [|d ds IH]; intros i sf Hi; [unfold mask_ds; rewrite firstn_nil; reflexivity|].
+  cbn [map sf_mask]. unfold mask_ds. destruct (sf <=? i) eqn:E.
+  - assert (sf = i) by lia. subst i. replace (sf - sf) with 0 by lia. cbn [N.to_nat firstn app].
+    rewrite Nat.sub_0_r. cbn [length repeat map]. rewrite dchar_0. f_equal.
+    apply sf_mask_all_zero. lia.
+  - assert (Hlt : i < sf) by lia.
+    rewrite IH by lia. unfold mask_ds.
+    replace (N.to_nat (sf - i)) with (S (N.to_nat (sf - (i + 1)))) by lia.
+    cbn [firstn length app map]. rewrite Nat.sub_succ. reflexivity.
+Qed.
+
+Lemma mask_ds_length : forall sf ds, length (mask_ds sf ds) = length ds.
+Proof.
+  intros sf ds. unfold mask_ds. rewrite app_length, repeat_length, firstn_length. lia.
+Qed.
+
+Lemma mask_ds_all : forall b sf ds, 1 <= b -> Forall (fun d => d < b) ds -> Forall (fun d => d < b) (mask_ds sf ds).
+Proof.
+  intros b sf ds Hb H. unfold mask_ds. apply Forall_app. split.
+  - rewrite Forall_forall in *. intros x Hx. apply H. eapply firstn_In'. eassumption.
+  - apply Forall_forall. intros x Hx. apply repeat_spec in Hx. lia.
+Qed.
+
+(* value of the masked digits: the number truncated to sf leading digits *)
+Lemma mask_ds_value : forall b sf ds, 1 <= b -> Forall (fun d => d < b) ds ->
+  digits_val b (mask_ds sf ds) =
+  digits_val b ds / b ^ N.of_nat (length ds - N.to_nat sf) * b ^ N.of_nat (length ds - N.to_nat sf).
+Proof.
+  intros b sf ds Hb Hall. unfold mask_ds.
+  set (k := N.to_nat sf).
+  rewrite digits_val_app, digits_val_zeros, repeat_length, N.add_0_r.
+  assert (Hlen : length (skipn k ds) = (length ds - k)%nat) by apply skipn_length.
+  assert (Hsplit : digits_val b ds = digits_val b (firstn k ds) * b ^ N.of_nat (length ds - k)
+                                     + digits_val b (skipn k ds)).
+  { rewrite <- Hlen, <- digits_val_app, firstn_skipn. reflexivity. }
+  rewrite Hsplit.
+  assert (Hlt : digits_val b (skipn k ds) < b ^ N.of_nat (length ds - k)).
+  { rewrite <- Hlen. apply digits_val_lt. rewrite Forall_forall in *. intros x Hx. apply Hall.
+    eapply skipn_In'. eassumption. }
+  rewrite N.div_add_l by (apply N.pow_nonzero; lia).
+  rewrite (N.div_small _ _ Hlt). lia.
+Qed.
+
+
+Lemma firstn_repeat : forall (A : Type) (a : A) j n, (j <= n)%nat -> firstn j (repeat a n) = repeat a j.
+Proof.
+  intros A a j. induction j as [|j IH]; intros n H; [reflexivity|].
+  destruct n as [|n]; [lia|]. cbn [repeat firstn]. f_equal. apply IH. lia.
+Qed.
+
+Lemma mask_exact_iff : forall sf hi lo lz, lo <> 0 ->
+  let ds := hi ++ lo :: repeat 0 lz in
+  (N.of_nat (length ds) - N.of_nat lz <= sf <-> mask_ds sf ds = ds).
+Proof.
+  intros sf hi lo lz Hlo ds.
+  assert (Hlen : length ds = (length hi + 1 + lz)%nat).
+  { unfold ds. rewrite app_length. cbn [length]. rewrite repeat_length. lia. }
+  split.
+  - intros H. unfold mask_ds.
+    assert (Hk : (length hi + 1 <= N.to_nat sf)%nat) by lia.
+    remember (N.to_nat sf) as k eqn:Ek. clear Ek H.
+    destruct (Nat.le_gt_cases (length ds) k) as [Hge|Hlt].
+    + rewrite firstn_all2 by assumption. replace (length ds - k)%nat with O by lia. apply app_nil_r.
+    + rewrite Hlen. unfold ds. rewrite firstn_app. rewrite (firstn_all2 hi) by lia.
+      replace (k - length hi)%nat with (S (k - length hi - 1)) by lia.
+      cbn [firstn]. rewrite firstn_repeat by lia.
+      rewrite <- app_assoc. cbn [app]. f_equal. f_equal.
+      rewrite <- repeat_app. f_equal. lia.
+  - intros H. destruct (N.le_gt_cases (N.of_nat (length ds) - N.of_nat lz) sf) as [Hle|Hgt]; [assumption|].
+    exfalso. assert (Hk : (N.to_nat sf <= length hi)%nat) by lia.
+    assert (Hn : nth (length hi) (mask_ds sf ds) 0 = lo).
+    { rewrite H. unfold ds. rewrite app_nth2 by lia. rewrite Nat.sub_diag. reflexivity. }
+    unfold mask_ds in Hn. rewrite app_nth2 in Hn by (rewrite firstn_length; lia).
+    rewrite nth_repeat in Hn. congruence.
+Qed.
+
+(* the printer with any sf limit *)
+Lemma format_biguint_gen : forall base wp sfl n, 2 <= base_val base <= 36 ->
+  exists f ds ex, format_biguint base wp sfl n = Ok (f, ex) /\
+    canon_ds (base_val base) n ds /\
+    fbu_num_digits f = N.of_nat (length ds) /\
+    fbu_text f = (if wp then prefix_text base else []) ++
+                 map dchar (match sfl with Some sf => mask_ds sf ds | None => ds end) /\
+    (ex = true <-> match sfl with Some sf => mask_ds sf ds = ds | None => True end).
+Proof.
+  intros base wp sfl n Hb. destruct sfl as [sf|].
+  2:{ destruct (format_biguint_nosf base wp n Hb) as (f & ds & Hf & Ht & Hc & Hn).
+      exists f, ds, true. split; [assumption|]. split; [assumption|]. split; [assumption|].
+      split; [assumption|]. split; auto. }
+  unfold format_biguint.
+  destruct (n =? 0) eqn:E0.
+  - apply N.eqb_eq in E0. subst n. eexists. exists [0], true. split; [reflexivity|].
+    assert (Hm : mask_ds sf [0] = [0]).
+    { unfold mask_ds. destruct (N.to_nat sf) as [|k]; [reflexivity|]. cbn [firstn length Nat.sub]. destruct k; reflexivity. }
+    split; [unfold canon_ds; split; [constructor; [lia|constructor]|]; split; [reflexivity|]; split; [reflexivity|intros; lia]|].
+    split; [reflexivity|]. split; [unfold fbu_text; cbn [fbu_base fbu_ty]; rewrite Hm; destruct wp; reflexivity|].
+    split; auto.
+  - apply N.eqb_neq in E0. rewrite andb_false_r.
+    replace ((base_val base <? 2) || (36 <? base_val base)) with false by lia.
+    destruct (group_params_spec (base_val base) Hb) as (d & r & Hg & Hd & Hr & _).
+    rewrite Hg.
+    destruct (int_loop_ok (base_val base) d (N.to_nat r) (S (N.to_nat (N.size n))) n (mkib [] 0 0 false) [] n)
+      as (st & ds & Hl & Hinv & Hv);
+      [lia|rewrite N2Nat.id; assumption|lia|lia|apply bufinv_init| |].
+    { unfold bufk. cbn. unfold digits_val. cbn. rewrite N.pow_0_r. lia. }
+    rewrite Hl. cbn [bind].
+    destruct Hinv as (Hout & Hall & Hfin).
+    assert (Hds : exists hi lo, ds = hi ++ lo :: repeat 0 (N.to_nat (ib_lz st)) /\ lo <> 0 /\ hd 0 ds <> 0).
+    { destruct Hfin as [(_ & -> & _)|(_ & Hhd & hi & lo & Hds & Hlo)].
+      - unfold digits_val in Hv. cbn in Hv. lia.
+      - exists hi, lo. auto. }
+    destruct Hds as (hi & lo & Hds & Hlo & Hhd).
+    assert (Hlz : ib_lz st <= N.of_nat (length ds)).
+    { rewrite Hds, app_length. cbn [length]. rewrite repeat_length. lia. }
+    rewrite Hout, map_length.
+    replace (N.of_nat (length ds) <? ib_lz st) with false by lia.
+    eexists. exists ds. eexists. split; [reflexivity|].
+    split; [unfold canon_ds; split; [assumption|]; split; [assumption|]; split; [intros; lia|intros; assumption]|].
+    split; [unfold fbu_num_digits; cbn [fbu_ty]; rewrite map_length; reflexivity|].
+    split.
+    + unfold fbu_text. cbn [fbu_base fbu_ty]. rewrite (sf_mask_spec ds 0 sf) by lia.
+      rewrite N.sub_0_r. destruct wp; reflexivity.
+    + pose proof (mask_exact_iff sf hi lo (N.to_nat (ib_lz st)) Hlo) as Hm. cbn zeta in Hm.
+      rewrite <- Hds in Hm. rewrite N2Nat.id in Hm. rewrite <- Hm.
+      split; intros H; lia.
+Qed.
